@@ -33,6 +33,11 @@ NOTES = {
  "C20-3": "missed at first; caught after the configuration with the operator prefix listed before the well-known one (both2)",
  "C08-1": "missed at first; caught after the slowns shape (un-glued NS host whose address lookup outlasts the lease, directly below the root) was added to the pipeline tier",
  "C08-2": "missed at first; caught after the pipeline tier got wire-born client queries and background refresh (threshold 90 %) as scenario shapes",
+ "C18-r2-1": "missed at first (the gated replay lets a writer past the lock gate only when saveMu is free, so nobody ever waited on it); caught by the BlQueue tier: writers really park on saveMu (runtime.Stack detection), the hoisted-check counter-examples of the model reproduce on the real code",
+ "C16-r2-1": "missed at first (the limiter store was exercised only through the rate limiter's semantics); caught by LimStore.tla + replay: in the sampled eviction regime (> 1000 entries) the key just written must still be mapped",
+ "C06-r2-1": "missed by C06 (its three entries build a fresh writer per query), caught by C10's per-request OPT hygiene (job-owned edns writer slot)",
+ "C06-r2-2": "missed by C06, caught by C10 (TcpConn: every reply byte is the own query's)",
+ "C03-r2-2": "a revert of fix 4abbbcb: missed by C03 (whose replay does not drive the prefetch worker), caught by C19 (Prefetch.tla ECS refresh tier)",
 }
 rows = []
 for p in sorted(glob.glob(os.path.join(V, "seeded", "*", "meta.json"))):
